@@ -1,9 +1,50 @@
 N = {"quick": 400, "thorough": 8000}
 EXHAUSTIVE = {"quick": False, "thorough": True}
-RULE = "tbd"
-ASSUMPTIONS = []
+RULE = ("random datasets of 0-30 (quick) / 0-50 (thorough) decimal values fed one by one to the real DataSetSummary::update; six value mixes "
+        "(small +/- halves with many ties; prices around 100; <=6 significant digits times 10^-6..10^3; 1-4 distinct values repeated, incl. all-equal; "
+        "tiny next to huge with both signs; tight cluster far from zero with rare outliers); half of the cases with >=2 values replay the same multiset "
+        "after `reset` in reversed / ascending / descending / shuffled order. Thorough additionally enumerates every sequence of length <=5 over "
+        "{-2, 0, 0.5, 3, 1000000} (3 906 sequences). All 13 observation keys are compared after every update: count, sum, high, low, range, activated and the two "
+        "inequality flags literally, mean / M / variance / std_dev / std_dev^2 to 1e-18 (observed worst deviation 1e-23). A case is distinct by the SHA-1 of "
+        "its op lines and non-trivial when the implementation's observation block changes at least once")
+ASSUMPTIONS = [
+    "exact rational arithmetic: the statement's `within decimal rounding` is proved as exact equality over Q; rust_decimal rounding, 96-bit overflow and scale exhaustion are not modelled (generated values have <=6 significant digits, |x| < 1e9, scale <=6, so +,- are exact and * of 28-digit means cannot overflow)",
+    "Decimal::sqrt is not modelled: the general theorems hold for an arbitrary function sqrtFn in its place; the model driver plugs in sqrtApprox (sqrt truncated to 30 decimals, error bound proved) and the run compares both std_dev and std_dev^2 with the real Decimal::sqrt to 1e-18",
+    "the summary starts from DataSetSummary::default() and is changed only by update (a deserialised or hand-built summary is outside the quantifier)",
+    "count is a Decimal in the code and never overflows (it is a rational in the model)",
+]
 SOURCE_FILES = ["barter/src/statistic/summary/dataset/mod.rs", "barter/src/statistic/summary/dataset/dispersion.rs", "barter/src/statistic/algorithm.rs"]
+
+
+def signature(ops, k, key, impl_line, spec_line):
+    # violated clause + class of the dataset seen so far
+    vals = []
+    for o in ops[:k + 1]:
+        t = o.split()
+        if t[0] == "reset":
+            vals = []
+        elif t[0] == "push":
+            vals.append(t[1])
+    n = len(vals)
+    cls = "n=0" if n == 0 else "n=1" if n == 1 else ("all-equal" if len(set(vals)) == 1 else "n>=2")
+    reordered = any(o.split()[0] == "reset" for o in ops[:k + 1])
+    return f"clause={key} dataset={cls}" + (" reordered" if reordered else "")
+
+
 CLAIM = True
-TECHNIQUE = "tbd"
-LEVEL_TEXT = "tbd"
-LEVEL_NOTE = "tbd"
+TECHNIQUE = ("Lean 4: division-free algebraic invariant of Welford's recurrences (mean*n = sum, M = sum of squares - mean*sum, high/low = greatest/least element) "
+             "by induction over the update history, refinement to a whole-dataset specification (field-by-field equality of the summary struct), permutation "
+             "invariance of the specification; proved integer square root for the std_dev comparison; correspondence of the model with DataSetSummary::update")
+LEVEL_TEXT = ("Proof. Lean theorems over the model of DataSetSummary/Dispersion/Range/welford_online (lean/BarterModel/Props/C17.lean), for EVERY finite sequence of "
+              "rational values (any length, sign, repetition, magnitude), all full strength, none partial: run_eq_spec / update_eq_spec (after each update the running "
+              "summary equals, field by field, the summary computed from the whole sequence at once), with the readable corollaries count_eq (= n), sum_eq (= sum x), "
+              "mean_eq (= sum x / n), m_eq (M = sum (x-mean)^2), variance_eq (= sum (x-mean)^2 / n), variance_nonneg (>= 0), std_dev_eq (= sqrt of that variance, for "
+              "any function standing for Decimal::sqrt; the code's .abs() is shown to be a no-op), std_dev_is_sqrt (with the executable root the drivers run: "
+              "0 <= s, s^2 <= variance < (s+1e-30)^2), range_eq (high/low are the greatest/least element, range = high-low, activated iff non-empty), "
+              "mean_in_range (low <= mean <= high), perm_invariant (any two orderings of the same multiset give the identical summary, all fields). "
+              "Unbounded in the number of values, which the fixed 5-6 element tables of the test-suite cannot reach. The model is tied to the code by running the "
+              "same datasets through the real DataSetSummary::update on every run and comparing every field after every update.")
+LEVEL_NOTE = ("Trusted: Lean kernel; axioms propext/Classical.choice/Quot.sound only; the hand-written model (tied by sampled correspondence: 400 quick / 8k random + all 3 906 "
+              "sequences of length <=5 over 5 values thorough); harness and driver. Exact arithmetic over Q: `within decimal rounding` is proved as equality, rust_decimal "
+              "rounding/overflow and Decimal::sqrt are not modelled (division- and sqrt-derived fields compared to 1e-18; worst observed deviation 1e-23). "
+              "Histories start at DataSetSummary::default().")
